@@ -3194,6 +3194,18 @@ void Analyser::AnalyserImpl::analyseModel(const ModelPtr &model)
             }
         }
 
+        // Swap the LHS and RHS of the equation if its unknown variable is on
+        // its RHS.
+        // Note: this is to be done before scaling the equation since what is on
+        //       its own on the LHS of an equation is taken to be what the
+        //       equation computes and is therefore not scaled.
+
+        if ((type != AnalyserEquation::Type::NLA)
+            && (type != AnalyserEquation::Type::EXTERNAL)
+            && internalEquation->variableOnRhs(internalEquation->mUnknownVariables.front())) {
+            internalEquation->mAst->swapLeftAndRightChildren();
+        }
+
         // Scale our internal equation's AST to take into account the fact that
         // we may have mapped variables that use compatible units rather than
         // equivalent ones.
@@ -3202,28 +3214,12 @@ void Analyser::AnalyserImpl::analyseModel(const ModelPtr &model)
 
         // Manipulate the equation, if needed.
 
-        switch (type) {
-        case AnalyserEquation::Type::NLA:
+        if (type == AnalyserEquation::Type::NLA) {
             // The equation is currently of the form LHS = RHS, but we want it
             // in the form LHS-RHS, so replace the equality element with a minus
             // one.
 
             internalEquation->mAst->setType(AnalyserEquationAst::Type::MINUS);
-
-            break;
-        case AnalyserEquation::Type::EXTERNAL:
-            // Do nothing.
-
-            break;
-        default:
-            // Swap the LHS and RHS of the equation if its unknown variable is
-            // on its RHS.
-
-            if (internalEquation->variableOnRhs(internalEquation->mUnknownVariables.front())) {
-                internalEquation->mAst->swapLeftAndRightChildren();
-            }
-
-            break;
         }
 
         // Determine the equation's dependencies, i.e. the equations for the
